@@ -77,9 +77,32 @@ EZID3_SPECIAL = ["genre", "date", "originaldate", "musicbrainz_trackid", "websit
                  "replaygain_track_gain", "replaygain_track_peak", "replaygain_*_gain", "replaygain_*_peak",
                  "replaygain__gain", "replaygain_gain"]
 EZ_INVALID = ["nosuchkey", "", "titl[e]", "\xe9", "*", "?itle", "title ", "TIT2", "[a-z]itle"]
+# the wildcard part of a pattern key is EVERYTHING the '*' stands for (documented: the role is what follows the first colon,
+# the description what lies between 'replaygain_' and the last '_gain' / '_peak'): further separators, empty parts, blanks,
+# glob characters, non-ASCII text -- each next to its prefixes / extensions so that aliasing between them shows
+EZID3_WILD_PERF = ["performer:guitar:lead", "PERFORMER:Guitar:Lead", "performer:guitar:", "performer:guitar:lead:2", "performer:a",
+                   "performer:a:b", "performer::x", "performer::", "performer:a b", "performer: ", "performer:\xe9",
+                   "performer:\xc9", "performer:\u30ae\u30bf\u30fc", "performer:gu\xeftar:l\xe9ad", "performer:a\nb", "performer:?",
+                   "performer:performer:a", "performer:replaygain_a_gain", "performer:guitar_lead", "Performer:x/y"]
+EZID3_WILD_RG = ["replaygain_a_gain", "replaygain_a_peak", "replaygain_a_b_gain", "replaygain_a_b_peak", "replaygain_A_b_gain",
+                 "replaygain_a__gain", "replaygain___gain", "replaygain__peak", "replaygain___peak", "replaygain_album_gain_gain",
+                 "replaygain_album_gain_peak", "replaygain_album_peak_gain", "replaygain_gain_gain", "replaygain_a:b_gain",
+                 "replaygain_a:b_peak", "replaygain_\xe9_gain", "replaygain_\xe9_peak", "replaygain_\u30ae_gain", "replaygain_a b_peak",
+                 "replaygain_?_gain", "replaygain_a_GAIN", "Replaygain_a_b_Peak", "replaygain_performer:a_gain"]
+# near misses of the patterns and of the fixed keys (all invalid), and a key that only lower-cases to a registered one
+EZ_NEAR = ["performers:a", "performer;a", " performer:a", "replaygain_peak", "replaygain_a_gains", "replaygain-a-gain",
+           "xreplaygain_a_gain", "replaygain_a_gain ", "title:", "title:a", "title_", "date:", "musicbrainz_trackid:1", "website:a",
+           "trac\u212anumber", "t\u0130tle", "\uff54itle"]
 EZID3_KEYS = (sorted(R.EASYID3_KEYCLASS) + ["Title", "TITLE", "ARTIST", "Barcode", "GENRE", "Date", "WEBSITE"] +
-              EZID3_SPECIAL + EZ_INVALID)
-EZMP4_KEYS = sorted(R.EASYMP4_KEYCLASS) + ["Title", "TITLE", "BPM", "TrackNumber"] + EZ_INVALID
+              EZID3_SPECIAL + EZ_INVALID + EZID3_WILD_PERF + EZID3_WILD_RG + EZ_NEAR)
+EZID3_FAMILIES = [[k for k in EZID3_KEYS if k.lower().startswith("performer")],
+                  [k for k in EZID3_KEYS if k.lower().startswith("replaygain")]]
+EZMP4_KEYS = (sorted(R.EASYMP4_KEYCLASS) + ["Title", "TITLE", "BPM", "TrackNumber"] + EZ_INVALID + EZ_NEAR +
+              ["performer:guitar", "performer:guitar:lead", "replaygain_album_gain", "tracknumber:", "tracknumber/1", "bpm_", "b_p_m",
+               "MusicBrainz_TrackId", "musicbrainz_trackid_", "\xa9nam", "----:com.apple.iTunes:MusicBrainz Track Id"])
+EZMP4_FAMILIES = [[k for k in EZMP4_KEYS if k.lower().startswith(("title", "ti\u0307", "\uff54"))],
+                  [k for k in EZMP4_KEYS if k.lower().startswith(("tracknumber", "trac\u212a", "bpm", "b_p"))],
+                  [k for k in EZMP4_KEYS if k.lower().startswith("musicbrainz_trackid")]]
 EZMP4_STR = ["a", "b", "3", "3/4", "3/0", "70000", "-5", "70000/1", "a/b", "1/2/3", " 7 ", "", "3.5", "\xe9", "3/"]
 
 
@@ -103,10 +126,21 @@ def _load(name):
 
 
 class Kind(object):
-    def __init__(self, name, make, ref, keys, vals, model_init=None, offers=None, extra_vals=(), native=None, file=False):
+    def __init__(self, name, make, ref, keys, vals, model_init=None, offers=None, extra_vals=(), native=None, file=False,
+                 families=()):
         self.name, self.make, self.ref, self.keys, self.vals = name, make, ref, keys, vals
         self.model_init, self.extra_vals, self.native, self.file = model_init, extra_vals, native, file
         self.offers = offers
+        self.families = [f for f in families if len(f) >= 2]     # keys that share a stem (pattern keys, their prefixes, near misses)
+        self._rel = {}
+
+    def relatives(self, k):
+        """keys of the universe of which k is a proper prefix or that are a proper prefix of k (case-insensitively)"""
+        if k not in self._rel:
+            lk = k.lower()
+            self._rel[k] = [k2 for k2 in self.keys if k2 and lk and k2.lower() != lk and
+                            (k2.lower().startswith(lk) or lk.startswith(k2.lower()))]
+        return self._rel[k]
 
 
 def _kinds():
@@ -154,10 +188,12 @@ def _kinds():
         Kind("fmp4", MP4, lambda q: R.FileRef(R.MP4Ref), MP4_KEYS, MP4_VALS, file=True),
         Kind("asf", ASFTags, lambda q: R.ASFRef(), ASF_KEYS, ASF_VALS),
         Kind("fasf", lambda: ASF(_load("silence-1.wma")), asf_loaded_ref, ASF_KEYS + ["Author", "WM/Year"], ASF_VALS, file=True),
-        Kind("ezid3", EasyID3, lambda q: R.EasyID3Ref(q), EZID3_KEYS, EZ_STR, native="id3"),
-        Kind("fezid3", EasyMP3, lambda q: R.FileRef(lambda: R.EasyID3Ref(q)), EZID3_KEYS, EZ_STR, native="id3", file=True),
-        Kind("ezmp4", EasyMP4Tags, lambda q: R.EasyMP4Ref(), EZMP4_KEYS, EZMP4_STR, native="mp4"),
-        Kind("fezmp4", EasyMP4, lambda q: R.FileRef(R.EasyMP4Ref), EZMP4_KEYS, EZMP4_STR, native="mp4", file=True),
+        Kind("ezid3", EasyID3, lambda q: R.EasyID3Ref(q), EZID3_KEYS, EZ_STR, native="id3", families=EZID3_FAMILIES),
+        Kind("fezid3", EasyMP3, lambda q: R.FileRef(lambda: R.EasyID3Ref(q)), EZID3_KEYS, EZ_STR, native="id3", file=True,
+             families=EZID3_FAMILIES),
+        Kind("ezmp4", EasyMP4Tags, lambda q: R.EasyMP4Ref(), EZMP4_KEYS, EZMP4_STR, native="mp4", families=EZMP4_FAMILIES),
+        Kind("fezmp4", EasyMP4, lambda q: R.FileRef(R.EasyMP4Ref), EZMP4_KEYS, EZMP4_STR, native="mp4", file=True,
+             families=EZMP4_FAMILIES),
     ]
     return dict((k.name, k) for k in ks)
 
@@ -305,7 +341,7 @@ def run_seq(kind, ops, quirks=None, model=None):
     o = kind.make()
     ref = kind.ref(q)
     res = {"fail": None, "hits": [], "trace": [], "model_fail": None}
-    prev = None
+    prev = real_state(o)[0]
     for i, op in enumerate(ops):
         a = real_apply(o, op)
         rop = op
@@ -322,6 +358,12 @@ def run_seq(kind, ops, quirks=None, model=None):
                            "observed": a, "expected": b}
             return res
         items, keys = real_state(o)
+        if (a[0] == "exc" and items != prev and "easyid3-failed-set-mutates" not in ref.hits and
+                (op[0] in ("set", "setdefault") or (op[0] == "update" and len(op[2]) == 1))):
+            # stated without the per-key reference rules: an assignment that raised must not have changed the mapping
+            res["fail"] = {"step": i, "what": "%s: a rejected %s (%s) changed the mapping" % (kind.name, op[0], a[1]),
+                           "observed": items, "expected": prev}
+            return res
         rstate = ref.state()
         for h in ref.hits:
             if (i, h) not in res["hits"]:
@@ -399,9 +441,21 @@ def gen_seq(kind, rng, maxlen, with_model, extra=False):
     if with_model and kind.name.startswith("fvc"):
         table = [(n, w) for n, w in table if n != "popitem"]      # set order: the popped key is hash dependent
     names = [n for n, w in table for _ in range(w)]
-    focus = [rng.choice(kind.keys) for _ in range(rng.randrange(2, 6))]
+    if kind.families and rng.random() < 0.4:
+        # one family of pattern keys: a key, its prefixes / extensions, its case variants and near misses, all live at once
+        fam = rng.choice(kind.families)
+        focus = rng.sample(fam, min(len(fam), rng.randrange(2, 7)))
+        if rng.random() < 0.5:
+            focus.append(rng.choice(kind.keys))
+    else:
+        focus = [rng.choice(kind.keys) for _ in range(rng.randrange(2, 6))]
     # case variants of a focus key make the interesting interleavings
     focus += [k2 for k in focus for k2 in kind.keys if k2.lower() == k.lower() and k2 != k][:3]
+    if kind.native:
+        # so do keys that extend / are a prefix of a focus key ('performer:guitar' next to 'performer:guitar:lead')
+        rel = [k2 for k in focus for k2 in kind.relatives(k) if k2 not in focus]
+        if rel:
+            focus += rng.sample(rel, min(len(rel), 3))
     if kind.native:
         vgen = ez_vals(kind.vals, rng)
     else:
@@ -613,6 +667,53 @@ def directed(ctx, drv):
         drv.one(K[kname], ops, wm)
 
 
+# values offered to every Easy key with a setter: every class a setter with validation may reject (not a list, wrong item
+# types, wrong list lengths, non-ASCII / unparsable / out-of-range content) -- many keys accept some of them, which is fine
+SWEEP_VALS = [["i", 5], ["n"], ["B", True], ["f", 1.5], ["t", [S("a")]], ["t", []], L(), L(S("a"), S("b")), L(S("1 dB"), S("2 dB")),
+              L(S("0.5"), S("0.25")), L(["i", 5]), L(["n"]), L(["f", 0.5]), L(S("a"), ["i", 5]), L(["i", 5], S("a")), L(S("\xe9")),
+              L(S("\u30ae")), L(S("a\xe9"), ["i", 5]), L(S("")), L(S(" ")), L(S("x")), L(S("dB")), L(S("100 dB")), L(S("-64.5 dB")),
+              L(S("2")), L(S("-0.5")), L(S("nan")), L(S("1e400")), L(S("3/0")), L(S("a/b")), L(S("70000/70000")),
+              S("\xe9"), S(""), S("100 dB"), S("2.5")]
+SWEEP_GOOD = [L(S("a")), L(S("1.5 dB")), L(S("0.5")), L(S("3/4")), L(S("7"))]
+
+
+def rejected_sweep(ctx, drv, kname, share=1.0):
+    """EVERY key of the Easy universe that has a setter x EVERY value class above x (key absent | key present | key and a
+    relative present): the outcome must be the reference's, and a rejected assignment must leave the mapping as it was
+    (run_seq); set, setdefault and a one-pair update take turns"""
+    kind = kinds()[kname]
+    rng = ctx.rng
+    seen = set()
+    for key in kind.keys:
+        if key in seen:
+            continue
+        seen.add(key)
+        good = None
+        for g in SWEEP_GOOD:
+            R.ACTIVE = CURRENT_QUIRKS
+            ref = kind.ref(CURRENT_QUIRKS)
+            if ref.apply(["set", key, g])[0] == "ok" and ref.apply(["in", key]) == ("ok", ["B", True]):
+                good = g
+                break
+        if good is None:
+            continue                                  # no setter / invalid key: covered by the random campaign
+        rel = [k2 for k2 in kind.relatives(key) if kind.ref(CURRENT_QUIRKS).apply(["set", k2, good])[0] == "ok"]
+        for j, bad in enumerate(SWEEP_VALS):
+            if share < 1.0 and rng.random() > share:
+                continue
+            how = ("set", "setdefault", "update")[j % 3]
+            last = [how, None, [[key, bad]]] if how == "update" else [how, key, bad]
+            pres = [[], [["set", key, good]]]
+            if rel:
+                pres.append([["set", rng.choice(rel), good], ["set", key, good]])
+            for pre in pres:
+                if how == "setdefault" and pre:
+                    pre = pre[:-1] + [["set", key, good], ["del", key]]
+                drv.one(kind, pre + [last, ["in", key]], False)
+                if len(drv.reported) >= 8:
+                    return
+
+
 def vm_crosscheck(ctx, drv, n=30):
     pool = drv.vm_pool
     ctx.rng.shuffle(pool)
@@ -647,6 +748,10 @@ def run(ctx):
     CURRENT_QUIRKS = dict(QUIRKS_ON)
     drv = Driver(ctx)
     directed(ctx, drv)
+    for kname in ("ezid3", "ezmp4"):
+        rejected_sweep(ctx, drv, kname)
+    for kname in ("fezid3", "fezmp4"):
+        rejected_sweep(ctx, drv, kname, share=1.0 if ctx.thorough else 0.15)
     if ctx.thorough:
         campaign(ctx, drv, 600, 40)
         campaign(ctx, drv, 40, 400)
